@@ -80,10 +80,11 @@ def api_case(res, rng, metric, kind):
             break
 
 
-def big_case(res, rng, kind):
+def big_case(res, rng, kind, extra=None):
     """more than one block of 16384 vertices: the per-block bookkeeping (change counts, thresholds re-read per block,
     in_graph carried across blocks) only exists beyond that size"""
-    n = 16384 + int(rng.choice([60, 700])); k = 4
+    # a last block of a handful of vertices: its own change count is below the stop threshold, the SUM over the blocks is not
+    n = 16384 + (int(rng.choice([60, 700])) if extra is None else extra); k = 4
     X = rng.standard_normal((n, 3)).astype(np.float32)
     if kind == "csr":
         import scipy.sparse as sp
@@ -121,6 +122,7 @@ def run(res, tier, seed, search):
         for r in range(reps):
             api_case(res, rng, metric, kind)
     big_case(res, rng, "dense32")
+    big_case(res, rng, "dense32", extra=3)
     if tier != "quick" or search:
         big_case(res, rng, "csr"); big_case(res, rng, "dense32")
     numba.set_num_threads(numba.config.NUMBA_NUM_THREADS)
